@@ -94,7 +94,7 @@ func runCheck(id, tier string) int {
 		usage()
 	}
 	jobs := c.Quick
-	if tier == "thorough" {
+	if tier == "thorough" && len(c.Thorough) > 0 {
 		jobs = c.Thorough
 	}
 	seed := seedFromEnv()
@@ -124,8 +124,14 @@ func runCheck(id, tier string) int {
 		err error
 	}
 	rpc := make(chan rpRes, 1)
+	nativePkgs := map[string]bool{}
+	for _, j := range jobs {
+		if !j.NoNative {
+			nativePkgs[j.Pkg] = true
+		}
+	}
 	go func() {
-		rp, err := newReplayer(c, ld)
+		rp, err := newReplayer(c, ld, nativePkgs)
 		rpc <- rpRes{rp, err}
 	}()
 
